@@ -165,6 +165,7 @@ type Opts struct {
 	Password     string   // if set, readiness probe authenticates
 	Wrapper      []string // e.g. strace ...
 	ReadyTimeout time.Duration
+	noCanary     bool // internal: this is the canary of another start
 }
 
 // Server is one child process.
@@ -318,11 +319,32 @@ func start1(o Opts) (*Server, error) {
 	}
 	if err := s.WaitReady(to); err != nil {
 		st := s.StderrTail(3000)
+		alive := s.Alive()
 		s.Kill9()
+		if alive && !o.noCanary {
+			// the process was still there when the watchdog fired: a server that hangs while it
+			// starts, or a machine that does not let anything start (memory pressure, an overloaded
+			// host)? A canary on an empty directory decides; the second case is not a verdict
+			// about the server.
+			cdir := NewDir()
+			t0 := time.Now()
+			cs, cerr := start1(Opts{Bin: o.Bin, Dir: cdir, ReadyTimeout: to / 2, noCanary: true})
+			if cs != nil {
+				cs.Kill9()
+			}
+			os.RemoveAll(cdir)
+			if cerr != nil {
+				return nil, fmt.Errorf("server not ready: %s: %v (a canary server on an empty directory did not become ready either); stderr: %s", MachineStalled, err, st)
+			}
+			return nil, fmt.Errorf("server not ready: %v (a canary server on an empty directory was ready in %v); stderr: %s", err, time.Since(t0).Round(time.Millisecond), st)
+		}
 		return nil, fmt.Errorf("server not ready: %v; stderr: %s", err, st)
 	}
 	return s, nil
 }
+
+// MachineStalled marks start-up errors that say nothing about the server under test.
+const MachineStalled = "machine stalled"
 
 // Addr is host:port of the server.
 func (s *Server) Addr() string {
